@@ -2,9 +2,9 @@
     implementation uses ([bounds_of_points] of the column polygon) the pre-filter never loses
     the containing column, so plain search is exhaustive search and every search aid whose
     premise holds agrees with it. *)
-From Coq Require Import List Bool Arith ZArith PArith QArith Lia.
+From Coq Require Import List Bool Arith ZArith PArith QArith Qreduction Lia.
 From Gen Require Import GenGeom.
-From P Require Import Locate LocBasics LocSearch LocPolygon LocBlock LocTrack LocRefuted.
+From P Require Import Locate LocBasics LocSearch LocPolygon LocConvex LocBlock LocTrack LocRefuted LineModel LocRect LocLine.
 Import ListNotations.
 Open Scope Q_scope.
 
@@ -48,7 +48,7 @@ Section Main.
     In T columnlist -> contains T pos = true ->
     inbounds pos bounds = true ->
     In T (match columns with None => columnlist | Some cs => cs end) ->
-    (forall t, qt = Some t -> connected_near nbrs bbox t pos T) ->
+    (forall t, qt = Some t -> qtree_finds nbrs bbox t pos T) ->
     ccp pos columns guess bounds qt = Some T /\ ccp pos None None None None = Some T.
   Proof.
     intros. apply ccp_aids_agree; auto. apply near_of_contains; assumption.
@@ -116,8 +116,58 @@ Lemma search_in_elements (polygon : positive -> list pt) (centre : positive -> p
   search polygon nbrs bbox (build centre fuel b es) pos = Some e -> In e es.
 Proof.
   unfold search. destruct (leaf (build centre fuel b es) pos) as [l|] eqn:El; [|discriminate].
-  intro H. apply wave_from in H. rewrite build_elements in H.
-  destruct H as [H|H]; [|exact H].
-  apply leaf_spec in El. destruct El as [S _].
-  exact (build_subtree_elements centre fuel b es l S e H).
+  destruct (wave _ _ _ _ _ _ _ _ _) as [e'|] eqn:W.
+  - intro H; inversion H; subst e'. apply wave_from in W. rewrite build_elements in W.
+    destruct W as [H'|H']; [|exact H'].
+    apply leaf_spec in El. destruct El as [S _].
+    exact (build_subtree_elements centre fuel b es l S e H').
+  - destruct quadtree_search_has_fallback; [|discriminate].
+    intro H. apply find_some in H. rewrite build_elements in H. tauto.
+Qed.
+
+(** ** [column_track] with the line primitives of LineModel.v plugged in: the bounding-box test is
+    [line_intersects_rectangle] on the column's bounding box, the intersection list is
+    [line_polygon_intersections] of the column's polygon (before the de-duplication, see LineModel.v) *)
+Definition track_model (polygon : positive -> list pt) (tdist : pt -> Q) (maxside : positive -> Q)
+           (l1 l2 : pt) (columnlist : list positive) : list seg :=
+  column_track polygon (fun c => line_intersects_rectangle (bounds_of_points (polygon c)) l1 l2)
+               (fun c => lpi_points (polygon c) l1 l2) tdist maxside track_tol l1 l2 columnlist.
+
+(** entry and exit points of every listed segment lie on the line: they are the line's own end
+    points or hits of the line with an edge of the listed column *)
+Definition on_line_and_column (poly : list pt) (l1 l2 p : pt) : Prop :=
+  p = l1 \/ p = l2 \/
+  exists h a b, In (a, b) (edges poly) /\ p = h_pt h /\ in_unit (h_xi0 h) = true /\ in_unit (h_xi1 h) = true /\
+                pt_eq p (lpoint a b (h_xi0 h)) /\ pt_eq p (lpoint l1 l2 (h_xi1 h)).
+Lemma track_model_points polygon tdist maxside l1 l2 cols s :
+  In s (track_model polygon tdist maxside l1 l2 cols) ->
+  In (seg_col s) cols /\
+  line_intersects_rectangle (bounds_of_points (polygon (seg_col s))) l1 l2 = true /\
+  on_line_and_column (polygon (seg_col s)) l1 l2 (seg_in s) /\
+  on_line_and_column (polygon (seg_col s)) l1 l2 (seg_out s).
+Proof.
+  unfold track_model. intro H. apply track_entries in H. destruct H as [d [_ H]].
+  destruct H as [Hc [Hl Hcase]]. cbn [fst snd] in *.
+  split; [exact Hc|]. split; [exact Hl|].
+  destruct Hcase as [[_ [Ei [Eo _]]]|[_ [_ [p0 [prest [Ei [Hin Hout]]]]]]].
+  - split; [left; exact Ei|right; left; exact Eo].
+  - split.
+    + destruct Hin as [[E _]|E]; [left; exact E|right; right].
+      apply lpi_points_on_line. rewrite Ei, E. left; reflexivity.
+    + destruct Hout as [[E _]|E]; [right; left; exact E|right; right].
+      apply lpi_points_on_line. rewrite Ei, E.
+      destruct prest as [|q r]; [left; reflexivity|]. right. clear. revert q. induction r as [|q' r' IH]; intro q; [left; reflexivity|]. right. apply (IH q').
+Qed.
+
+(** the hexagon crossed by the line (-1, 2) -> (5, 2): hypotheses of the crossing theorems hold, and the model computes the two hits *)
+Lemma ex_crossed :
+  strictly_inside ex_hexagon (lpoint (-1, 2) (5, 2) (1 # 2)) /\ ~ closed_inside ex_hexagon (lpoint (-1, 2) (5, 2) 1) /\
+  map (fun p => (Qred (px p), Qred (py p))) (lpi_points ex_hexagon (-1, 2) (5, 2)) = [(0, 2); (4, 2)] /\
+  line_intersects_rectangle (bounds_of_points ex_hexagon) (-1, 2) (5, 2) = true.
+Proof.
+  split; [|split; [|split; vm_compute; reflexivity]].
+  - intros a b H. cbn in H.
+    repeat (destruct H as [H|H]; [inversion H; subst; vm_compute; reflexivity|]). destruct H.
+  - intro H. assert (I : In ((4, 1), (4, 3)) (edges ex_hexagon)) by (cbn; tauto).
+    specialize (H _ _ I). vm_compute in H. apply H. reflexivity.
 Qed.
